@@ -370,4 +370,22 @@ def stale_alias(repo: Repo) -> RuleRun:
 
 stale_alias.rule_id = "C16.STALE-ALIAS"
 
-RULES = [knot_dependence, end_pairing, interface, closest_param_search, stale_alias]
+def none_tests(repo: Repo) -> RuleRun:
+    """discretize(0, b) / get_length(0, b) start at parameter 0: 'parameter not given' is decided with 'is None', never by truth value."""
+    from ..optional import none_tests_rule
+
+    return none_tests_rule(repo, PROP, "C16.NONE-TESTS", ("construct.curves", "construct.edges", "items.edges", "optimize.clamps"), floor=2)
+
+
+none_tests.rule_id = "C16.NONE-TESTS"
+
+def no_memo(repo: Repo) -> RuleRun:
+    """The end parameters, points and length of a curve edge follow its vertices: nothing computed from positions is memoised."""
+    from ..memo import memo_rule
+
+    return memo_rule(repo, PROP, "C16.NO-MEMO")
+
+
+no_memo.rule_id = "C16.NO-MEMO"
+
+RULES = [knot_dependence, end_pairing, interface, closest_param_search, stale_alias, none_tests, no_memo]
